@@ -131,10 +131,29 @@ pub fn run_case_c07(case: &Case, prog: &Prog, mode: &Mode) -> (CaseReport, Value
         };
         rep.runs += 1;
     }
+    // the name of the calling thread is the only input of the macros besides the branches: the all-succeed
+    // plan once more on a thread whose name is long and not ASCII (nested thread-spawning macros produce
+    // long names); plain and thread-spawning macros must agree on value and callbacks
+    let mut named = Value::Null;
+    if !kind.is_async {
+        let plan = Plan { bad: vec![], panic_at: None, gates: vec![], deep: false };
+        let name = "\u{43f}\u{43e}\u{442}\u{43e}\u{43a}-\u{e9}\u{e8}\u{20ac}-\u{4e3b}\u{7ebf}\u{7a0b}-".repeat(3) + "x";
+        named = match run_child_named(case.idx, &plan, Duration::from_secs(30), 3000, Some(&name)) {
+            Ok(v) => {
+                let mut calls: Vec<String> = v["events"].as_array().map(|a| a.iter().filter(|e| e[1] == "call" || e[1] == "hcall").map(|e| e[0].to_string()).collect()).unwrap_or_default();
+                calls.sort();
+                json!(format!("completed panicked={} calls={:x}", v["panicked"], fnv(&calls.join(","))))
+            }
+            Err(e) if e == "timeout" => json!("timeout"),
+            Err(_) => json!("crashed"),
+        };
+        rep.runs += 1;
+        rep.class("caller_thread_with_long_non_ascii_name");
+    }
     if rep.samples.is_empty() && !digests.is_empty() {
         rep.samples.push(json!({"plans": digests.len(), "first": digests[0]}));
     }
-    (rep, json!({"digests": digests, "spawn_sig": spawn_sig, "deep": deep, "gated": gated}))
+    (rep, json!({"digests": digests, "spawn_sig": spawn_sig, "deep": deep, "gated": gated, "named": named}))
 }
 
 // ------------------------------------------------------------------------------- C18
@@ -225,8 +244,16 @@ fn run_child(case_idx: usize, plan: &Plan, timeout: Duration) -> Result<Value, S
 }
 
 fn run_child_hold(case_idx: usize, plan: &Plan, timeout: Duration, hold_ms: u64) -> Result<Value, String> {
+    run_child_named(case_idx, plan, timeout, hold_ms, None)
+}
+
+fn run_child_named(case_idx: usize, plan: &Plan, timeout: Duration, hold_ms: u64, name: Option<&str>) -> Result<Value, String> {
     let exe = std::env::current_exe().map_err(|e| e.to_string())?;
-    let mut child = Command::new(exe)
+    let mut cmd = Command::new(exe);
+    if let Some(n) = name {
+        cmd.env("JV_CHILD_NAME", n);
+    }
+    let mut child = cmd
         .env("JV_CHILD", "1")
         .env("JV_HOLD_MS", hold_ms.to_string())
         .env("JV_ONLY", case_idx.to_string())
